@@ -151,7 +151,7 @@ def classify(res, meta, unit_file):
                 snippet = t['text'][t['highlight_start'] - 1:t['highlight_end'] - 1].strip()
             obl = '%s::call-pre(%s)[%s]' % (item or 'unit', callee or '?', re.sub(r'\s+', ' ', snippet)[:60])
         elif 'invariant' in low:
-            s = prim[0] if prim else None
+            s = lab if (lab is not None and os.path.basename(lab.get('file_name', '')) == base) else (prim[0] if prim else None)
             if s is not None:
                 cid = _clause_at(meta, s['line_start'], item)
                 obl = cid
